@@ -546,6 +546,29 @@ func c14Verdicts(c *core.Ctx) {
 				ok := len(args) >= 1 && ssax.AnyIn(ssax.BackwardOpt(args[0], followCopy), isMsgLoad)
 				c.Check(ok, "C14.R4", fmt.Sprintf("publishHandler|uses-req.Message|retained.AddOrReplace#%d", i), ipos(c, e.Instr), "retains req.Message", "the retained store is not given the message returned by OnMsgArrived (req.Message)")
 			}
+			// whether and how the retained store changes is decided by the message the hook let through as well:
+			// no condition on the way to the store update may read the RETAIN flag or the payload of the packet
+			// as it was received
+			for _, grp := range [][]ssax.CallSite{addCalls, rmCalls} {
+				for i, e := range grp {
+					what := "retained.AddOrReplace"
+					if len(rmCalls) > 0 && len(grp) > 0 && grp[0].Instr == rmCalls[0].Instr {
+						what = "retained.Remove"
+					}
+					fromPacket := ""
+					for _, g := range ssax.Guards(e.Instr) {
+						for v := range ssax.Backward(g.Cond) {
+							switch ssax.FieldOwner(v) {
+							case "pkg/packets.Publish.Retain":
+								fromPacket = "Publish.Retain"
+							case "pkg/packets.Publish.Payload":
+								fromPacket = "Publish.Payload"
+							}
+						}
+					}
+					c.Check(fromPacket == "", "C14.R4", fmt.Sprintf("publishHandler|decided-by-req.Message|%s#%d", what, i), ipos(c, e.Instr), "the retained update is decided by req.Message", fmt.Sprintf("whether the retained store is updated is decided by %s of the packet as received, not by the message returned by OnMsgArrived: a hook that clears RETAIN or rewrites the payload is ignored by the retained store", fromPacket))
+				}
+			}
 			for i, e := range rmCalls {
 				args := ssax.Args(e.Instr)
 				ok := len(args) >= 1 && ssax.AnyIn(ssax.Backward(args[0]), isMsgLoad)
@@ -673,5 +696,60 @@ func c14Inventory(c *core.Ctx, hooks *types.Struct) {
 		if _, ok := hookSites[hf.Name()]; !ok {
 			c.Undecidedf("C14.R5", "callsites|"+hf.Name(), p.Pos(hf.Pos()), "hook kind %s is not in the confirmed inventory", hf.Name())
 		}
+	}
+
+	// ---- R6 no state change conditional on the presence of an optional hook
+	{
+		stores := map[string]bool{"persistence/subscription.Store": true, "persistence/queue.Store": true, "persistence/unack.Store": true,
+			"persistence/session.Store": true, "retained.Store": true}
+		tables := []string{"server.server.clients", "server.server.offlineClients", "server.server.willMessage", "server.server.queueStore", "server.server.unackStore"}
+		n := 0
+		for _, fn := range p.FuncsOfPkg("server") {
+			if p.IsMockOrGenerated(fn) {
+				continue
+			}
+			ssax.Instrs(fn, false, func(_ *ssa.Function, in ssa.Instruction) {
+				what := ""
+				switch x := in.(type) {
+				case ssa.CallInstruction:
+					ce := ssax.ResolveCallee(x.Common())
+					switch {
+					case ce.Kind == "invoke" && ce.Method != nil:
+						recv := ssax.TypeName(x.Common().Value.Type())
+						if stores[recv] {
+							switch ce.Method.Name() {
+							case "Subscribe", "Unsubscribe", "UnsubscribeAll", "Add", "Remove", "Replace", "Clean", "Init", "Set", "AddOrReplace", "ClearAll", "SetSessionExpiry":
+								what = "the store update " + recv + "." + ce.Method.Name()
+							}
+						}
+					case ce.Func != nil && (ce.Func.Name() == "signal" || ce.Func.Name() == "sendWillLocked" || ce.Func.Name() == "addMsgToQueueLocked" || ce.Func.Name() == "removeSessionLocked" || ce.Func.Name() == "release" || ce.Func.Name() == "batchRelease") && core.IsModuleFunc(ce.Func):
+						what = "the call of " + ce.Func.Name()
+					case ce.Kind == "field" && (ce.Name == "field:server.client.deliverMessage" || ce.Name == "field:server.client.register" || ce.Name == "field:server.client.unregister"):
+						what = "the call of " + strings.TrimPrefix(ce.Name, "field:server.")
+					case ce.Kind == "builtin" && (ce.Name == "builtin:delete"):
+						for _, t := range tables {
+							if len(x.Common().Args) > 0 && ssax.AnyIn(ssax.Backward(x.Common().Args[0]), ssax.LoadOfField(t)) {
+								what = "the removal from " + t
+							}
+						}
+					}
+				case *ssa.MapUpdate:
+					for _, t := range tables {
+						if ssax.AnyIn(ssax.Backward(x.Map), ssax.LoadOfField(t)) {
+							what = "the update of " + t
+						}
+					}
+				}
+				if what == "" {
+					return
+				}
+				n++
+				if hs := hookPresenceGuards(in); len(hs) > 0 {
+					c.Violation("C14.R6", fmt.Sprintf("state-under-hook-test|%s|%s", fname(fn), what), ipos(c, in), fmt.Sprintf("%s only happens when the optional hook %s is installed (it sits inside 'if hooks.%s != nil'): a broker without that plugin behaves differently", what, strings.Join(hs, ", "), strings.Join(hs, ", ")))
+				}
+			})
+		}
+		c.Floor("C14.R6", n, 40)
+		c.OK("C14.R6", "state-under-hook-test|scanned", "-", fmt.Sprintf("%d state-changing sites of package server, none conditional on the presence of a hook", n))
 	}
 }
